@@ -852,6 +852,128 @@ class VepCLI(Contract):
             I.e.prove(f'C14/cli/every-option-read-is-defined-by-the-parser:{exc.msg}', False)
 
 
+PRC14 = 'moPepGen/cli/parse_reditools.py'
+
+
+@register
+class RedCLI(Contract):
+    """parseREDItools: every row of the table is converted with the annotation and the four thresholds given on the command line, bound
+    (by Python's own argument binding on the real signature) to the parameters of the same name; the transcript column is the 1-based
+    option minus one; every returned record is stored under the gene it is located on; a row counts as succeeded iff it yields a
+    record, else as skipped; a failing row propagates"""
+    path, qualname, props = PRC14, 'parse_reditools', ('C14', 'C07')
+    assumptions = ('havoc: REDItoolsParser.parse yields the rows of the table; record.convert_to_variant_records returns 0..n records or raises '
+                   '(its own contract is proved separately); output sorting and writing are external',)
+
+    def setup(self, I):
+        e = I.e
+        st = types.SimpleNamespace(log=[], stored=[], writes=[], parse_args=None)
+        dests = parser_dests('moPepGen.cli.parse_reditools', 'add_subparser_parse_reditools')
+        st.th = dict(min_coverage_alt=e.int('min_coverage_alt'), min_frequency_alt=SymObj('Opt', n='min_frequency_alt'),
+                     min_coverage_rna=e.int('min_coverage_rna'), min_coverage_dna=e.int('min_coverage_dna'))
+        st.col = e.int('transcript_id_column')
+        st.table = SymObj('PathStub14', suffix='.tsv')
+        known = dict(input_path=st.table, output_path=OpaqueStr(['out']), transcript_id_column=st.col, source='RNAEditingSite', **st.th)
+        st.args_obj = real_namespace(dests, known)
+        st.anno = SymObj('AnnoStub14')
+        st.args = [st.args_obj]
+        self._cur = st
+        return st
+
+    @property
+    def models(self):
+        c = self
+
+        def inst(reg):
+            noop = lambda I, a, k: None
+            reg.func_('moPepGen/cli/common.py', 'validate_file_format', noop)
+            reg.func_('moPepGen/cli/common.py', 'print_start_message', noop)
+
+            def load_refs(I, a, k):
+                I.e.prove('C14/red-cli/annotation-loaded-from-the-run-arguments', (a[0] if a else k.get('args')) is c._cur.args_obj)
+                return (None, c._cur.anno, None, None)
+            reg.func_('moPepGen/cli/common.py', 'load_references', load_refs)
+            reg.func_('moPepGen/cli/common.py', 'generate_metadata', lambda I, a, k: SymObj('Metadata'))
+            reg.strict_attr_classes = {'Namespace'}
+
+            def parse(I, a, k):
+                st = c._cur
+                I.e.prove('C14/red-cli/table-parsed-with-the-transcript-column-minus-one', len(a) == 2 and a[0] is st.table and z3.is_true(z3.simplify(a[1] == st.col - 1)))
+                n = I.e.int('n_rows')
+                I.e.assume(n >= 0)
+                return FnView(n, lambda i: SymObj('RedRow', idx=i if is_z3(i) else z3.IntVal(i)), tag='rows')
+            reg.func_('moPepGen/parser/REDItoolsParser.py', 'parse', parse)
+
+            def convert(I, o, a, k):
+                st = c._cur
+                # bind the call on the real signature of REDItoolsRecord.convert_to_variant_records
+                from pyvc.interp import Env
+                cls_, fnode = I.repo.find_method('REDItoolsRecord', 'convert_to_variant_records')
+                env_ = Env({})
+                I.bind_args(fnode.args, [o] + list(a), dict(k), env_, 'convert_to_variant_records')
+                bound = env_.vars
+                good = bound.get('anno') is st.anno and all(bound.get(n) is v for n, v in st.th.items())
+                I.e.prove('C14/red-cli/annotation-and-thresholds-reach-the-parameters-of-the-same-name', good)
+                ch = I.e.choose(3, 'convert outcome')
+                st.outcome = ch
+                if ch == 2:
+                    raise PyRaise(SymExc('<any>', ['failure']))
+                if ch == 0:
+                    st.result = []
+                    return []
+                st.result = [SymObj('VariantRecordStub', of=o.fields['idx'], n=0, location=SymObj('Loc', seqname=SymObj('GeneKey14', r=0))),
+                             SymObj('VariantRecordStub', of=o.fields['idx'], n=1, location=SymObj('Loc', seqname=SymObj('GeneKey14', r=1)))]
+                return st.result
+            reg.method_('RedRow', 'convert_to_variant_records', convert)
+            reg.method_('AnnoStub14', 'get_genes_rank', lambda I, o, a, k: SymObj('Rank'))
+            reg.sorted_hooks.append(lambda I, items, kw: items if isinstance(items, FnView) else None)
+            reg.func_('moPepGen/seqvar/io.py', 'write', lambda I, a, k: c._cur.writes.append(a[0]))
+            reg.ext_('seqvar.io.write', lambda I, a, k: c._cur.writes.append(a[0]))
+            reg.method_('KeyStub', 'sort', lambda I, o, a, k: None)
+            reg.method_('AllRecords', 'extend', lambda I, o, a, k: None)
+        return (inst,)
+
+    def havoc(self, I, env, k):
+        e = I.e
+        t = env['tally']
+        for n in ('total', 'succeed', 'skipped'):
+            t.fields[n] = e.int(f't_{n}')
+        env['variants'] = GhostRecordDict(self)
+
+    def inv(self, I, env, k):
+        t = env['tally']
+        return [('rows-read=succeeded+skipped', z3.And(t.fields['total'] == t.fields['succeed'] + t.fields['skipped'], t.fields['total'] == k,
+                                                      t.fields['succeed'] >= 0, t.fields['skipped'] >= 0))]
+
+    def on_head(self, I, env, k):
+        st = self._cur
+        t = env['tally']
+        st.pre = dict(succeed=t.fields['succeed'], skipped=t.fields['skipped'], ns=len(st.stored))
+        st.outcome = None
+
+    def step(self, I, env, k):
+        st = self._cur
+        t = env['tally']
+        eq = lambda x, v: z3.is_true(z3.simplify(x == v))
+        ds, dk = t.fields['succeed'] - st.pre['succeed'], t.fields['skipped'] - st.pre['skipped']
+        stored = st.stored[st.pre['ns']:]
+        if st.outcome == 0:
+            return [('row-without-records-counted-as-skipped-and-nothing-stored', eq(ds, 0) and eq(dk, 1) and not stored)]
+        ok = eq(ds, 1) and eq(dk, 0) and len(stored) == len(st.result) and all(s_[1] is r and s_[0] is r.fields['location'].fields['seqname'] for s_, r in zip(stored, st.result))
+        return [('every-record-of-the-row-stored-once-under-its-gene-and-the-row-counted', ok)]
+
+    @property
+    def loops(self):
+        T = lambda I, env, k: []
+        return {0: LoopSpec(inv=self.inv, havoc=self.havoc, on_head=self.on_head, step=self.step),
+                2: LoopSpec(inv=T), 3: LoopSpec(inv=T, havoc=lambda I, env, k: env.__setitem__('all_records', SymObj('AllRecords')))}
+
+    def post_raise(self, I, st, exc):
+        I.e.prove('C14/red-cli/raise/only-a-failing-row-propagates', exc.cls == '<any>' and st.outcome == 2)
+        if exc.cls == 'AttributeError':
+            I.e.prove(f'C14/red-cli/every-option-read-is-defined-by-the-parser:{exc.msg}', False)
+
+
 # ----------------------------------------------------------------------------
 # Native side: replay of counterexamples + CPython cross-check of the two contracts (bounded, labelled)
 # ----------------------------------------------------------------------------
